@@ -6,6 +6,8 @@ use std::panic::{AssertUnwindSafe, catch_unwind};
 
 mod util;
 mod svc;
+#[cfg(feature = "proxy")]
+mod proxy;
 mod gen_backend;
 mod gen_outputs;
 mod c01;
@@ -53,6 +55,8 @@ fn main() {
 fn dispatch(suite: &str, case: &Value) -> Value {
     match suite {
         "svc" => svc::run(case),
+        #[cfg(feature = "proxy")]
+        "proxy" => proxy::run(case),
         "c01" => c01::run(case),
         "c04" => c04::run(case),
         "c05" => c05::run(case),
